@@ -46,11 +46,11 @@ def snap(diffx):
     """Pure function of PUBLIC attributes of a tree."""
     return {
         'opts': snap_opts(diffx.options),
-        'preamble': snap_content(diffx.preamble_section),
+        'pre': snap_content(diffx.preamble_section),
         'meta': snap_content(diffx.meta_section),
         'changes': [{
             'opts': snap_opts(ch.options),
-            'preamble': snap_content(ch.preamble_section),
+            'pre': snap_content(ch.preamble_section),
             'meta': snap_content(ch.meta_section),
             'files': [{
                 'opts': snap_opts(f.options),
@@ -85,3 +85,214 @@ def metas(diffx):
         for f in ch.files:
             out.append(jabs(f.meta))
     return out
+
+
+# ---------------------------------------------------------------- histories
+def absval(v, cat=None):
+    """Abstract an attribute value offered to a typed attribute."""
+    z = {'t': 'other', 's': [], 'b': [], 'n': 0, 'j': jabs(None)}
+    if v is None:
+        z['t'] = 'none'
+    elif isinstance(v, bool):
+        z['t'] = 'bool'
+        z['b'] = bl(str(v).encode())
+    elif isinstance(v, int):
+        z['t'] = 'int'
+        z['b'] = bl(str(v).encode())
+    elif isinstance(v, str):
+        z['t'] = 'str'
+        z['s'] = cps(v)
+        z['b'] = bl(v.encode('utf-8', 'surrogatepass'))
+        if cat is not None:
+            cat.note(v)
+    elif isinstance(v, bytes):
+        z['t'] = 'bytes'
+        z['s'] = bl(v)
+    elif isinstance(v, dict):
+        z['t'] = 'dict'
+        z['j'] = jabs(v)
+        if cat is not None:
+            cat.note_json(v)
+    elif isinstance(v, (list, tuple)):
+        z['t'] = 'list'
+    elif isinstance(v, float):
+        z['t'] = 'float'
+    return z
+
+
+def absattrs(attrs, cat):
+    return [{'name': k, 'val': absval(v, cat)} for k, v in attrs.items()]
+
+
+class History(object):
+    """Executes operations on live trees and records Trace_Dom events."""
+
+    def __init__(self, cat, shared_reader=False, shared_writer=False):
+        from pydiffx.dom import DiffX
+        from pydiffx.dom.reader import DiffXDOMReader
+        from pydiffx.dom.writer import DiffXDOMWriter
+        self.DiffX = DiffX
+        self.cat = cat
+        self.trees = []
+        self.ev = []
+        self.reader = DiffXDOMReader(DiffX) if shared_reader else None
+        self.writer = DiffXDOMWriter() if shared_writer else None
+        self.blobs = []
+
+    def _snaps(self):
+        return [snap(t) for t in self.trees]
+
+    def _emit(self, e):
+        e['snaps'] = self._snaps()
+        for k, dflt in (('tid', 0), ('ci', 0), ('fi', 0), ('attrs', []), ('ok', True), ('name', ''),
+                        ('val', absval(None)), ('key', []), ('sec', ''), ('o', {'k': [], 's': [], 't': 'none'}),
+                        ('del', False), ('status', ''), ('bytes', []), ('a', 0), ('b', 0), ('eq', False),
+                        ('ne', False), ('samebytes', 'na'), ('same_as', []), ('check_same', False)):
+            e.setdefault(k, dflt)
+        self.ev.append(e)
+        return e
+
+    def container(self, tid, ci, fi):
+        t = self.trees[tid - 1]
+        if ci == 0:
+            return t
+        ch = t.changes[ci - 1]
+        return ch if fi == 0 else ch.files[fi - 1]
+
+    def new(self, **attrs):
+        ok = True
+        try:
+            t = self.DiffX(**attrs)
+        except Exception:      # noqa
+            ok = False
+        if ok:
+            self.trees.append(t)
+        return self._emit({'k': 'new', 'attrs': absattrs(attrs, self.cat), 'ok': ok})
+
+    def addc(self, tid, **attrs):
+        ok = True
+        try:
+            self.trees[tid - 1].add_change(**attrs)
+        except Exception:      # noqa
+            ok = False
+        return self._emit({'k': 'addc', 'tid': tid, 'attrs': absattrs(attrs, self.cat), 'ok': ok})
+
+    def addf(self, tid, ci, **attrs):
+        ok = True
+        try:
+            self.trees[tid - 1].changes[ci - 1].add_file(**attrs)
+        except Exception:      # noqa
+            ok = False
+        return self._emit({'k': 'addf', 'tid': tid, 'ci': ci, 'attrs': absattrs(attrs, self.cat), 'ok': ok})
+
+    def set(self, tid, ci, fi, name, value):
+        ok = True
+        try:
+            setattr(self.container(tid, ci, fi), name, value)
+        except Exception:      # noqa
+            ok = False
+        return self._emit({'k': 'set', 'tid': tid, 'ci': ci, 'fi': fi, 'name': name, 'val': absval(value, self.cat), 'ok': ok})
+
+    def mut(self, tid, ci, fi, key, value):
+        self.container(tid, ci, fi).meta[key] = value
+        self.cat.note(key)
+        self.cat.note_json(value)
+        return self._emit({'k': 'mut', 'tid': tid, 'ci': ci, 'fi': fi, 'key': cps(key), 'val': jabs(value)})
+
+    def opt(self, tid, ci, fi, sec, key, value=None, delete=False):
+        c = self.container(tid, ci, fi)
+        s = {'self': c, 'pre': getattr(c, 'preamble_section', None), 'meta': c.meta_section,
+             'diff': getattr(c, 'diff_section', None)}[sec]
+        if delete:
+            s.options.pop(key, None)
+        else:
+            s.options[key] = value
+            if isinstance(value, str):
+                self.cat.note(value)
+        return self._emit({'k': 'opt', 'tid': tid, 'ci': ci, 'fi': fi, 'sec': sec, 'o': typed_opt(key, value), 'del': delete})
+
+    def _to_bytes(self, t):
+        import io
+        if self.writer is not None:
+            with io.BytesIO() as s:
+                self.writer.write_stream(t, s)
+                return s.getvalue()
+        return t.to_bytes()
+
+    def ser(self, tid, same_as=None):
+        from harness.abstraction import exc_family
+        status = 'ok'
+        data = b''
+        try:
+            data = self._to_bytes(self.trees[tid - 1])
+        except Exception as e:     # noqa
+            status = exc_family(e)
+        self.blobs.append(data if status == 'ok' else None)
+        e = {'k': 'ser', 'tid': tid, 'status': status, 'bytes': bl(data)}
+        if same_as is not None:
+            e['same_as'] = bl(same_as)
+            e['check_same'] = True
+        return self._emit(e)
+
+    def parse(self, data, same_contents_as=None):
+        import io
+        from harness.abstraction import exc_family
+        status = 'ok'
+        try:
+            if self.reader is not None:
+                t = self.reader.parse(io.BytesIO(data))
+            else:
+                t = self.DiffX.from_bytes(data)
+        except Exception as e:     # noqa
+            status = exc_family(e)
+        if status == 'ok':
+            self.trees.append(t)
+        e = {'k': 'parse', 'bytes': bl(data), 'status': status}
+        if same_contents_as is not None:
+            e['a'] = same_contents_as
+            e['check_same'] = True
+        return self._emit(e)
+
+    def cmp(self, a, b):
+        ta, tb = self.trees[a - 1], self.trees[b - 1]
+        eq = bool(ta == tb)
+        ne = bool(ta != tb)
+        same = 'na'
+        try:
+            same = 'yes' if ta.to_bytes() == tb.to_bytes() else 'no'
+        except Exception:      # noqa
+            same = 'na'
+        return self._emit({'k': 'cmp', 'a': a, 'b': b, 'eq': eq, 'ne': ne, 'samebytes': same})
+
+    def repr(self, tid):
+        repr(self.trees[tid - 1])
+        str(self.trees[tid - 1].changes)
+        return self._emit({'k': 'repr', 'tid': tid})
+
+    def trace(self, tid, chk):
+        from harness.wdriver import cmap_for
+        blob = b''.join(bytes(e['bytes']) for e in self.ev if e['bytes'])
+        names = set()
+        for e in self.ev:
+            for s in e['snaps']:
+                _collect_encs(s, names)
+        cmap = cmap_for(blob + b''.join(b' encoding=' + n for n in names), self.cat)
+        return {'id': tid, 'cmap': cmap, 'chk': chk, 'ev': self.ev}
+
+
+def _collect_encs(s, names):
+    def opts(os):
+        for o in os:
+            if bytes(o['k']) == b'encoding' and o['t'] == 'str':
+                names.add(bytes(o['s']))
+    opts(s['opts'])
+    for k in ('pre', 'meta'):
+        opts(s[k]['opts'])
+    for ch in s['changes']:
+        opts(ch['opts'])
+        opts(ch['pre']['opts'])
+        opts(ch['meta']['opts'])
+        for f in ch['files']:
+            opts(f['opts'])
+            opts(f['meta']['opts'])
+            opts(f['diff']['opts'])
